@@ -8,7 +8,7 @@ from . import cscen as CS
 FAIL_EVENTS = {"endfail", "readfail", "writefail", "mtimefail", "cut"}
 
 DEFAULTS = {"n": 0, "v": CS.NIL, "sv": CS.NIL, "r": 0, "f": 0, "o": [], "dry": False, "ok": False, "same": True,
-            "ops": [], "anc": []}
+            "ops": [], "anc": [], "tpok": True}
 
 
 def normalise_event(e):
@@ -56,6 +56,8 @@ def gen_history(rng, scn, length=6, p_fault=0.35, p_dry=0.12, p_render=0.08, max
             "maxerr": rng.choice([0, 0, 0, 1, 2, None]),
             "single_as_node": rng.random() < 0.5,
             "fresh_r": rng.random(),
+            "obs": rng.choice([None, "rec", "rec", "composite"]),
+            "tp": rng.random() < 0.25,
         }
         if st["op"] == "run" and rng.random() < p_fault:
             kind = rng.choice(["cut", "cut", "call", "store"])
@@ -133,6 +135,76 @@ def project_physical(U, phys):
     return ops, anc
 
 
+def make_observer(sink, lock):
+    from uberjob.progress import ProgressObserver
+
+    class Rec(ProgressObserver):
+        def __enter__(self):
+            with lock:
+                sink.append(("enter", None, None, 0))
+
+        def __exit__(self, et, ev, tb):
+            with lock:
+                sink.append(("exit", None, None, 0))
+
+        def increment_total(self, *, section, scope, amount):
+            with lock:
+                sink.append(("total", section, scope, amount))
+
+        def increment_running(self, *, section, scope):
+            with lock:
+                sink.append(("running", section, scope, 0))
+
+        def increment_completed(self, *, section, scope):
+            with lock:
+                sink.append(("completed", section, scope, 0))
+
+        def increment_failed(self, *, section, scope, exception):
+            with lock:
+                sink.append(("failed", section, scope, 0))
+
+    return Rec()
+
+
+def progress_trace(U, scn, notes, notes2, run_events, ok, clean, ngather):
+    """The ProgressTrace.tla record of one run: notifications with scopes numbered per (section,
+    scope tuple), and the harness's account of what executed."""
+    ids = {}
+
+    def sid(sec, scope):
+        return ids.setdefault((sec, scope), len(ids) + 1)
+
+    ev = []
+    for kind, sec, scope, amt in notes:
+        if kind in ("enter", "exit"):
+            ev.append({"e": kind, "sec": "", "sc": 0, "amt": 0, "clean": clean})
+        else:
+            ev.append({"e": kind, "sec": sec, "sc": sid(sec, scope), "amt": amt, "clean": clean})
+    starts = {}
+    for e in run_events:
+        if e["e"] == "start":
+            starts[e["n"]] = starts.get(e["n"], 0) + 1
+    scopes = scn.get("scopes") or [[]] * scn["N"]
+    per_label = {}
+    for n, c in starts.items():
+        lab = (*scopes[n - 1], f"vfcscen.f{n}")
+        per_label[lab] = per_label.get(lab, 0) + c
+    exp = [[sid("run", lab), c] for lab, c in sorted(per_label.items(), key=repr)]
+    nops = sum(1 for e in run_events if e["e"] in ("start", "read", "write"))
+    ncalls = sum(1 for k in scn["kind"] if k == "call")
+    ev.append({"e": "summary", "sec": "", "sc": 0, "amt": 0, "clean": clean, "ok": ok, "exp": exp, "runcalls": nops + ngather,
+               "stalecalls": ncalls + ngather, "members_equal": notes2 is None or notes2 == notes})
+    for e in ev:
+        e.setdefault("ok", False)
+        e.setdefault("exp", [])
+        e.setdefault("runcalls", 0)
+        e.setdefault("stalecalls", 0)
+        e.setdefault("members_equal", True)
+    if len(ids) > 48:
+        return None
+    return {"events": ev}
+
+
 def run_history(task):
     """task: {scn, steps, seed}. Returns {"trace": {scn, events}, "info": {...}}"""
     import uberjob
@@ -145,6 +217,7 @@ def run_history(task):
             nd.fn._vf_call = i
     rng = random.Random(task.get("seed", 0))
     random.seed(task.get("seed", 0) ^ 0xC0FFEE)
+    ptraces = []
     info = {"runs": 0, "ok_runs": 0, "failed_runs": 0, "cuts_hit": 0, "unexpected": [], "dry": 0, "renders": 0,
             "threads_leaked": 0, "max_inflight_over": []}
     for st in task["steps"]:
@@ -182,6 +255,24 @@ def run_history(task):
             scheduler=st.get("sched"),
             progress=None,
         )
+        notes, notes2 = [], None
+        if st.get("obs"):
+            from uberjob.progress import Progress
+
+            olock = threading.Lock()
+            kw["progress"] = Progress(lambda: make_observer(notes, olock))
+            if st["obs"] == "composite":
+                notes2 = []
+                kw["progress"] = (Progress(lambda: make_observer(notes, olock)), Progress(lambda: make_observer(notes2, olock)))
+        tp_calls = []
+        if st.get("tp"):
+            def tp(plan_, node_):
+                tp_calls.append(1)
+                plan_.graph.graph["vf_tp"] = True
+                return plan_, node_
+
+            kw["transform_physical"] = tp
+        ngather = 1 if (out and not single) else 0
         nthreads0 = threading.active_count()
         d0 = U.digest()
         if op == "dry":
@@ -196,7 +287,11 @@ def run_history(task):
                 U.log("digest", same=(d0 == U.digest()))
                 continue
             ops, anc = project_physical(U, phys)
-            U.log("dry", ops=ops, anc=anc)
+            U.log("dry", ops=ops, anc=anc, tpok=(not st.get("tp")) or bool(phys.graph.graph.get("vf_tp")))
+            if st.get("obs"):
+                pt = progress_trace(U, scn, notes, notes2, [], False, True, ngather)
+                if pt:
+                    ptraces.append(pt)
             U.log("digest", same=(d0 == U.digest()))
             U.log("dryend")
             # executing the returned plan by itself must behave as the real run would have
@@ -239,6 +334,12 @@ def run_history(task):
             info["failed_runs"] += 1
             if not any(e["e"] in FAIL_EVENTS for e in U.events[mark:]):
                 info["unexpected"].append({"where": "run", "exc": repr(exc)[:300], "step": st})
+        if st.get("obs"):
+            pt = progress_trace(U, scn, notes, notes2, U.events[mark:], ok, not U.dead, ngather)
+            if pt:
+                ptraces.append(pt)
+        if st.get("tp") and ok and len(tp_calls) != 1:
+            info["unexpected"].append({"where": "transform_physical", "exc": f"called {len(tp_calls)} times"})
         if U.cut_hit:
             info["cuts_hit"] += 1
         if U.max_inflight > st.get("W", 1):
@@ -247,7 +348,7 @@ def run_history(task):
         if threading.active_count() > nthreads0:
             info["threads_leaked"] += 1
     events = [normalise_event(e) for e in U.events]
-    return {"trace": {"scn": CS.for_trace(scn), "events": events}, "info": info}
+    return {"trace": {"scn": CS.for_trace(scn), "events": events}, "info": info, "ptraces": ptraces}
 
 
 def _expected_failure(U):
